@@ -7,7 +7,8 @@
    all 65536), any description (byte list), any nested FieldError / ParameterError tree. *)
 From Coq Require Import NArith List.
 From LLRP Require Import Client.Status Client.StatusProofs Client.StatusExchange Client.StatusExchangeProofs
-  Client.StatusDriver Client.StatusDriverProofs Client.StatusWire Client.StatusWireProofs.
+  Client.StatusDriver Client.StatusDriverProofs Client.StatusWire Client.StatusWireProofs
+  Client.StatusLimit Client.StatusLimitProofs.
 Import ListNotations.
 Open Scope N_scope.
 
@@ -281,3 +282,29 @@ Example C12_example_wire :
   [(2, XOutcome (mkOutcome (Some (EStatus 101 [110; 111] (Some (FieldErr 1 300)) None))
                            (RespDecoded (Some (mkStatus 101 [110; 111] (Some (FieldErr 1 300)) None)))))].
 Proof. vm_compute. reflexivity. Qed.
+
+(* ==== round 8: replies near the buffering limit ====================================================
+   Model: Client/StatusLimit.v — the read loop's size check (passToHandler) and Message.data's. *)
+
+(* a reply that arrived completely reaches SendFor with EXACTLY its payload iff its announced length is within the
+   limit (every length, every limit, every payload); beyond the limit the exchange is an error (C10's clause) — never an empty or shortened
+   payload, so never a decode error or a lost status for a reply within the limit *)
+Theorem C12_reply_within_limit_reaches_sendfor_intact : forall lim declared payload,
+  reply_bytes lim lim declared payload =
+  if declared <=? lim then DBytes payload else DTooLarge.
+Proof. exact reply_bytes_same_limit. Qed.
+Print Assumptions C12_reply_within_limit_reaches_sendfor_intact.
+
+(* why the two checks have to use the same limit: with a lower threshold in the read loop, every complete reply
+   in the gap is decoded from an empty payload *)
+Theorem C12_reply_limit_gap_loses_payload : forall lim_loop lim_data declared payload,
+  lim_loop < declared -> declared <= lim_data ->
+  reply_bytes lim_loop lim_data declared payload = DBytes [].
+Proof. exact reply_bytes_gap_loses_payload. Qed.
+Print Assumptions C12_reply_limit_gap_loses_payload.
+
+Example C12_example_limit :
+  reply_bytes MaxBufferedPayloadSz MaxBufferedPayloadSz 655360 [1; 31] = DBytes [1; 31] /\
+  reply_bytes MaxBufferedPayloadSz MaxBufferedPayloadSz 655361 [1; 31] = DTooLarge /\
+  reply_bytes (MaxBufferedPayloadSz - 10) MaxBufferedPayloadSz 655351 [1; 31] = DBytes [].
+Proof. vm_compute. repeat split. Qed.
